@@ -130,12 +130,12 @@ Definition arith (dm : datamodel) (t : ity) (op : binop) (a b : Z) : option Z :=
   | BDiv => if b =? 0 then None else fit dm t (Z.quot a b)      (* 6.5.5p6 truncation toward zero *)
   | BMod => if b =? 0 then None
             else match fit dm t (Z.quot a b) with          (* 6.5.5p6: a/b must be representable *)
-                 | Some _ => Some (Z.rem a b) | None => None end
+                 | Some _ => fit dm t (Z.rem a b) | None => None end
   | BAnd => Some (convert dm t (Z.land a b))   (* in range for in-range operands; convert = id *)
   | BOr => Some (convert dm t (Z.lor a b))
   | BXor => Some (convert dm t (Z.lxor a b))
-  | BLt => Some (b2z (a <? b)) | BGt => Some (b2z (b <? a))
-  | BLe => Some (b2z (a <=? b)) | BGe => Some (b2z (b <=? a))
+  | BLt => Some (b2z (a <? b)) | BGt => Some (b2z (a >? b))
+  | BLe => Some (b2z (a <=? b)) | BGe => Some (b2z (a >=? b))
   | BEq => Some (b2z (a =? b)) | BNe => Some (b2z (negb (a =? b)))
   | _ => None
   end.
@@ -186,8 +186,10 @@ Fixpoint eval (dm : datamodel) (e : expr) : option Z :=
       | Some va, Some vb =>
           let ta := promote dm (type_of dm a) in
           let tb := promote dm (type_of dm b) in
-          if is_shift op then shift dm ta op (convert dm ta va) (convert dm tb vb)
-          else let t := uac dm ta tb in arith dm t op (convert dm t va) (convert dm t vb)
+          let pa := convert dm ta va in          (* integer promotions (value preserving) *)
+          let pb := convert dm tb vb in
+          if is_shift op then shift dm ta op pa pb
+          else let t := uac dm ta tb in arith dm t op (convert dm t pa) (convert dm t pb)
       | _, _ => None
       end
   | ECond c a b =>
@@ -195,8 +197,9 @@ Fixpoint eval (dm : datamodel) (e : expr) : option Z :=
       | None => None
       | Some vc =>
           let t := type_of dm (ECond c a b) in
-          match eval dm (if vc =? 0 then b else a) with
-          | Some v => Some (convert dm t v) | None => None end
+          let x := if vc =? 0 then b else a in
+          match eval dm x with
+          | Some v => Some (convert dm t (convert dm (promote dm (type_of dm x)) v)) | None => None end
       end
   end.
 
